@@ -111,6 +111,13 @@ Definition p_line_ending : parser (list N) := fun i =>
   | _ => PErr KCrLf
   end.
 
+(* combinator::eof: succeeds on the empty input only *)
+Definition p_eof : parser (list N) := fun i =>
+  match i with
+  | [] => POk [] 0 []
+  | _ => PErr KEof
+  end.
+
 (* character::complete::not_line_ending: up to the first CR or LF; a CR that is
    not followed by LF is an error; no line end at all returns everything *)
 Definition p_not_line_ending : parser (list N) := fun i =>
